@@ -135,3 +135,11 @@ reg("C20",
     explanation="the repository's IR files, the universal HTTP IR and a multi-package IR with errors/services/extensions; flag configurations (exhaustive, serializeEmptyCollections, stripPrefix, crate output with product/crate versions); library Config vs `conjure-rust generate`; S owned hash seeds; different output path and working directory per run; first run of each traced with strace",
     level_text="Exhaustive over the owned nondeterminism that exists (the process hash seed, made a harness choice by the shim) within the seed set, and over the configuration product; replayable because the seed is owned.",
     level_note="Trusted: the LD_PRELOAD shim reaches std's RandomState through libc getrandom (verified: the probe sees different HashMap orders per seed); strace for file activity. Seeds are not iteration orders: large tables are only sampled by the seed set, and the evidence says how many distinct orders the probe saw.")
+
+reg("C02",
+    packages=["cgorder"], cmd=["python3", "engines/e2/e2.py"], level="model_checking", engine="E2 genharness",
+    technique="explicit-state enumeration of (IR type shape, configuration, JSON document) states: the real generator is run on the enumerated IR, its output compiled against /repo's crates and executed on every document, compared with a reference model of the Conjure wire format",
+    design_ref="DESIGN.md §3 C02",
+    explanation="one object/union/alias per type shape up to depth 2 (21 leaves incl. references to enum/object/union/aliases/external), recursive and field-count families; per type the model's valid documents and every single-fault variant, all union member sequences <= 3; client and server JSON deserializers of the compiled generated types; configurations default and exhaustive+serializeEmptyCollections (thorough: all four, plus Smile round trips)",
+    level_text="Explicit-state model checking with a specification-level wire model (validity, canonical form, fault catalogue) as oracle; every state is executed on the code the current tree generates (regenerated and recompiled on every run).",
+    level_note="Trusted: the wire model (engines/e2/model.py); rustc/cargo; the probe dispatcher. Inputs on which the specification is silent (null for collections / required any, 1.0 for integers, duplicates, relaxed datetime/uuid spellings) are in neither set.")
